@@ -7,8 +7,11 @@
 (*   and byte matcher, not by srctools), a the call, res its outcome, obs what   *)
 (*   the public API answers afterwards (filenames, read, verify, the three name  *)
 (*   spellings, and a fresh read-only VPK opened on the same path).  The record  *)
-(*   is judged on its own: post must be exactly VpkOps' step from pre, and the   *)
-(*   API's answers must be what the specification reads out of post.             *)
+(*   is judged on its own, by what a READER recovers: outcome, names, every      *)
+(*   file's bytes and checksum (VpkOps.Read on the projected placement), the     *)
+(*   written file's region inside its archive, the documented limit / index      *)
+(*   rules - never the writer's offsets or layout - and the API's answers must   *)
+(*   be what the specification reads out of post.                                *)
 (* k = "parts": _get_file_parts(value) for one spelling of a name.               *)
 (* Mismatches are printed (one JSON line each), never fatal.                     *)
 EXTENDS VpkOps, TLC, Json, IOUtils
@@ -18,13 +21,11 @@ N == Len(Recs)
 VARIABLE i
 
 \* j.files = every other file in the archive's directory, by name; numbered archive i is the one the
-\* specification names ArchName(fname, i) - nothing else may be there (StrayFiles)
+\* specification names ArchName(fname, i)
 ArchOf(r, j) == [k \in 1..r.cfg.narch |->
                     IF ~IsDirName(r.cfg.fname) THEN <<>>
                     ELSE LET nm == ArchName(r.cfg.fname, k - 1) IN
                          IF nm \in DOMAIN j.files THEN j.files[nm] ELSE <<>>]
-StrayFiles(r, j) == DOMAIN j.files \ (IF IsDirName(r.cfg.fname)
-                                       THEN {ArchName(r.cfg.fname, k - 1) : k \in 1..r.cfg.narch} ELSE {})
 StOf(r, j) == [sz |-> r.cfg.sz, limit |-> r.cfg.limit, fname |-> r.cfg.fname,
                single |-> ~IsDirName(r.cfg.fname), mode |-> j.mode,
                tree |-> j.tree, foot |-> j.foot, arch |-> ArchOf(r, j), disk |-> j.disk,
@@ -73,29 +74,69 @@ FreshOK(s, f) ==
         THEN Bad("fresh.verify", 0)
     ELSE Good
 
+\* ---- what the READER sees: the property does not fix where the writer puts the bytes, only that
+\* every listed file can be read back.  Offsets, the order of blocks, dead space and whether a file
+\* grows on rewrite are the writer's choice; the specification's own placement (VpkOps.WriteEntry) is
+\* one such choice and is not demanded of the code.
+RegionOK(s, n) == LET e == s.tree[n] IN
+    /\ e.plen <= PreMax                                           \* the length field has 16 bits
+    /\ (e.len > 0 => e.off + e.len <= BytesLen(Source(e, s.foot, s.arch)))    \* inside the named archive / tail
+\* the tail regions of two different live files do not cut into each other (the very same region twice is
+\* the same bytes shared)
+Apart(s, n, m) == LET e == s.tree[n] f == s.tree[m] IN
+    \/ e.len = 0 \/ f.len = 0 \/ e.idx # f.idx
+    \/ e.off + e.len <= f.off \/ f.off + f.len <= e.off
+    \/ (e.off = f.off /\ e.len = f.len)
+\* documented API: at most dir_data_limit bytes of a file are kept in the directory entry; what is beyond
+\* goes to the numbered archive given as arch_index, or stays in the directory file when arch_index is
+\* None, the VPK is a single file or there is no limit
+PlacedAsDocumented(s, n, a) == LET e == s.tree[n] IN
+    /\ ((~s.single /\ s.limit # None) => e.plen <= s.limit)
+    /\ (e.len > 0 => e.idx = (IF s.single \/ s.limit = None \/ a = None THEN None ELSE a))
+
 StepVerdict(r) ==
     LET pre == StOf(r, r.pre) post == StOf(r, r.post) a == r.a
         e == Expected(pre, a)
         x == e.s
+        ok == e.res = "ok"
         \* an effective data write (writing the bytes a file already has is defined to do nothing)
-        touched == a.op \in {"addfile", "write"} /\ e.res = "ok"
+        touched == a.op \in {"addfile", "write"} /\ ok
                    /\ (a.n \notin DOMAIN pre.tree \/ pre.tree[a.n].c # a.c)
+        loaded == a.op = "reopen" /\ ok /\ x.mode # "w" /\ pre.disk.st = "ok"
+        \* what every file of the object must read as afterwards
+        WantRead(n) == IF loaded THEN DiskRead(pre, n)
+                       ELSE IF touched /\ n = a.n THEN a.c
+                       ELSE IF a.op \in {"newfile", "addfile"} /\ ok /\ n = a.n THEN 0
+                       ELSE Read(pre, n)
+        WantCrc(n) == IF loaded THEN pre.disk.tree[n].c
+                      ELSE IF touched /\ n = a.n THEN a.c
+                      ELSE IF a.op \in {"newfile", "addfile"} /\ ok /\ n = a.n THEN 0
+                      ELSE pre.tree[n].c
     IN  \* the harness's own bookkeeping of what was written (machinery, not the code under test)
         IF r.res = e.res /\ ~(SameFn(x.want, post.want) /\ SameFn(x.wantDisk, post.wantDisk))
             THEN Bad("ghost", [want |-> x.want, wantDisk |-> x.wantDisk])
-        ELSE IF r.res # e.res THEN Bad("res", e.res)
+        ELSE IF r.res # e.res THEN Bad("res", e.res)               \* outcome, refusals of read-only objects
         ELSE IF x.mode # post.mode THEN Bad("mode", x.mode)
-        ELSE IF ~SameFn(x.tree, post.tree) THEN Bad("tree", x.tree)
-        ELSE IF x.foot # post.foot THEN Bad("foot", x.foot)
-        ELSE IF x.arch # post.arch THEN Bad("arch", x.arch)
-        ELSE IF StrayFiles(r, r.post) # {} THEN Bad("files.stray", StrayFiles(r, r.post))
-        ELSE IF x.disk.st # post.disk.st THEN Bad("disk.state", x.disk.st)
-        ELSE IF ~SameFn(x.disk.tree, post.disk.tree) THEN Bad("disk.tree", x.disk.tree)
-        ELSE IF x.disk.foot # post.disk.foot THEN Bad("disk.foot", x.disk.foot)
-        \* the property on this step: the file written reads back, archives only grew
-        ELSE IF touched /\ (Read(post, a.n) # a.c \/ ~Verify(post, a.n)) THEN Bad("prop.readback", a.c)
-        ELSE IF ~AppendOnly(pre, post) THEN Bad("prop.appendonly", 0)
-        ELSE IF ~PreloadFits(post) /\ PreloadFits(pre) THEN Bad("prop.preload16", PreMax)
+        \* exactly the files that should exist
+        ELSE IF DOMAIN post.tree # DOMAIN x.tree THEN Bad("names", [n \in DOMAIN x.tree |-> 1])
+        \* each reads back the bytes last written to it (all others: what they read as before), checksum too
+        ELSE IF \E n \in DOMAIN post.tree : Read(post, n) # WantRead(n)
+            THEN Bad(IF touched THEN "prop.readback" ELSE "reads", [n \in DOMAIN post.tree |-> WantRead(n)])
+        ELSE IF \E n \in DOMAIN post.tree : post.tree[n].c # WantCrc(n)
+            THEN Bad("crc", [n \in DOMAIN post.tree |-> WantCrc(n)])
+        \* the format as the reader sees it, for the file just written
+        ELSE IF touched /\ ~RegionOK(post, a.n) THEN Bad("region", PreMax)
+        ELSE IF touched /\ \E m \in DOMAIN post.tree \ {a.n} : ~Apart(post, a.n, m) THEN Bad("overlap", 0)
+        ELSE IF touched /\ ~PlacedAsDocumented(post, a.n, a.a) THEN Bad("place.documented", 0)
+        \* write_dirfile: a reader of the _dir file now finds exactly the object's files and bytes
+        ELSE IF a.op = "writedir" /\ ok /\ post.disk.st # "ok" THEN Bad("disk.state", "ok")
+        ELSE IF a.op = "writedir" /\ ok /\ DOMAIN post.disk.tree # DOMAIN pre.tree
+            THEN Bad("disk.names", [n \in DOMAIN pre.tree |-> 1])
+        ELSE IF a.op = "writedir" /\ ok /\ \E n \in DOMAIN pre.tree :
+                    DiskRead(post, n) # Read(pre, n) \/ post.disk.tree[n].c # pre.tree[n].c
+            THEN Bad("disk.reads", [n \in DOMAIN pre.tree |-> Read(pre, n)])
+        \* opening for writing wipes the _dir file; a refused or failed call leaves it alone
+        ELSE IF a.op = "reopen" /\ x.disk.st # post.disk.st THEN Bad("disk.state", x.disk.st)
         ELSE LET o == ObsOK(post, r.obs) IN
              IF ~o.ok THEN o ELSE FreshOK(post, r.obs.fresh)
 
